@@ -184,6 +184,7 @@ def run(ctx) -> None:
   ctx.rule('R2', 'every seed / rng parameter is consumed (RNG constructor, callee seed, attribute of self)', 10)
   ctx.rule('R3', 'the benchmark chain forwards the seed at every hop', 3)
   ctx.rule('R4', 'no iteration over a set in suggestion-building code', 1)
+  ctx.import_rules('C13', {'R5'}, 'R5', 're-initialisation (restore / second run) starts from the same template: no in-place shuffle of constructor-derived state')
   n_sites = 0
   for f in FILES:
     mi = ctx.index.module_of_file(f)
